@@ -73,6 +73,7 @@ func (h *history) collect(block bool) string {
 			case <-limit:
 				fmt.Fprintf(&sb, " r%d=never-answered", p.id)
 				limit = time.After(0)
+				h.dead = true
 			}
 			continue
 		}
